@@ -182,3 +182,7 @@ mod tests {
         PacketNumberSpace::ApplicationData.new_packet_number(packet_number.try_into().unwrap())
     }
 }
+
+#[cfg(all(aws_s2n_quic_verif, test))]
+#[path = "/verif/harness/core/loss.rs"]
+mod verif;
